@@ -917,12 +917,15 @@ func runStateCallers(c *core.Ctx) {
 	// inbound handlers by client message type: mergeHandlerSession methods taking *ClientXMsg
 	in := map[string]*ssa.Function{}
 	for _, fn := range sessionFuncs(c) {
-		if fn.Parent() != nil || len(fn.Params) != 2 {
+		if fn.Parent() != nil || len(fn.Params) < 2 || len(fn.Params) > 3 {
 			continue
 		}
-		t := typeNameOf(fn.Params[1].Type())
-		if strings.HasPrefix(t, "Client") && t != "ClientMsg" {
-			in[t] = fn
+		// (the typed message, possibly next to the session context)
+		for _, q := range fn.Params[1:] {
+			t := typeNameOf(q.Type())
+			if strings.HasPrefix(t, "Client") && t != "ClientMsg" && strings.HasSuffix(t, "Msg") {
+				in[t] = fn
+			}
 		}
 	}
 	type want struct{ alloc, fill, release []*ssa.Function }
